@@ -24,8 +24,8 @@ Definition db_put := @kv_put coord Z3_eqb.
 Record bparams := mkBP {
   bp_take : Z; bp_drop : Z; bp_group : Z;
   bp_app : list Z;       (* coords.append(...) per tile: 0 = x, 1 = y, 2 = level *)
-  bp_dkey : list Z;      (* tile_dict[(...)] = tile *)
-  bp_rkey : list Z       (* tile_dict[(row[i], ...)]; the SELECT lists tile_column, tile_row, zoom_level *)
+  bp_dkey : list Z;      (* tile_dict.setdefault((...), []).append(tile), the same tuple in the `not in` test *)
+  bp_rkey : list Z       (* for tile in tile_dict[(row[i], ...)]; the SELECT lists tile_column, tile_row, zoom_level *)
 }.
 
 Definition mbtiles_params : bparams :=
@@ -70,33 +70,11 @@ Definition query (p : bparams) (d : db) (cur : list Z) : option (list (coord * b
     Some (filter (fun row => existsb (zs_eqb (sel [0; 1; 2] (fst row))) conds) d)
   else None.
 
-(* tile_dict: insertion order, a later tile with the same key replaces the earlier one *)
-Definition tdict := list (list Z * nat).
-Fixpoint dict_get (d : tdict) (k : list Z) : option nat :=
-  match d with
-  | [] => None
-  | (k', i) :: r => match dict_get r k with
-                    | Some j => Some j
-                    | None => if zs_eqb k' k then Some i else None
-                    end
-  end.
-Fixpoint dict_size (d : tdict) : nat :=
-  match d with
-  | [] => O
-  | (k, _) :: r => if existsb (fun e => zs_eqb (fst e) k) r then dict_size r else S (dict_size r)
-  end.
-
-Fixpoint enum_from {A} (i : nat) (l : list A) : list (nat * A) :=
-  match l with [] => [] | x :: r => (i, x) :: enum_from (S i) r end.
-
 Fixpoint find_last {A} (f : A -> bool) (l : list A) : option A :=
   match l with
   | [] => None
   | x :: r => match find_last f r with Some y => Some y | None => if f x then Some x else None end
   end.
-
-Definition onat_eqb (a : option nat) (i : nat) : bool :=
-  match a with Some j => Nat.eqb j i | None => false end.
 
 Fixpoint all_some_l {A} (l : list (option A)) : option (list A) :=
   match l with
@@ -105,11 +83,24 @@ Fixpoint all_some_l {A} (l : list (option A)) : option (list A) :=
   | Some x :: r => match all_some_l r with Some r' => Some (x :: r') | None => None end
   end.
 
-(* MBTilesCache.load_tiles / GeopackageCache.load_tiles on fresh tiles with the coordinates cs.
+(* the tiles whose coordinates are appended to the flat list: the first tile of every dictionary key
+     if (x, y, level) not in tile_dict: coords.append(x); coords.append(y); coords.append(level)
+     tile_dict.setdefault((x, y, level), []).append(tile)                                            *)
+Fixpoint firsts (p : bparams) (seen : list (list Z)) (cs : list coord) : list coord :=
+  match cs with
+  | [] => []
+  | c :: r =>
+    let k := sel (bp_dkey p) c in
+    if existsb (zs_eqb k) seen then firsts p seen r else c :: firsts p (k :: seen) r
+  end.
+
+(* MBTilesCache.load_tiles / GeopackageCache.load_tiles on fresh tiles with the coordinates cs (repaired code:
+   tile_dict maps a key to the list of all tile objects with that key).
    None: the call raises.  Some (return value, data of every tile). *)
 Definition bulk_load (p : bparams) (d : db) (cs : list coord) : option (bool * list (option bytes)) :=
-  let coords := flat_map (sel (bp_app p)) cs in
-  let dict : tdict := map (fun ic => (sel (bp_dkey p) (snd ic), fst ic)) (enum_from O cs) in
+  let keys := map (sel (bp_dkey p)) cs in
+  let fst_tiles := firsts p [] cs in                        (* len(tile_dict) = number of distinct keys *)
+  let coords := flat_map (sel (bp_app p)) fst_tiles in
   match cs with
   | [] => Some (true, [])                                 (* if not tile_dict: return True *)
   | _ :: _ =>
@@ -120,16 +111,15 @@ Definition bulk_load (p : bparams) (d : db) (cs : list coord) : option (bool * l
       | None => None
       | Some rss =>
         let rows := List.concat rss in
-        (* tile = tile_dict[(row[..], ..)]: KeyError when the key is not in the dictionary *)
-        let ri := map (fun row => (dict_get dict (sel (bp_rkey p) (fst row)), snd row)) rows in
-        if forallb (fun r => is_some (fst r)) ri then
-          (* every row overwrites the data of its tile object: the last row of a tile stays *)
-          let res := map (fun ic =>
-                            match find_last (fun r => onat_eqb (fst r) (fst ic)) ri with
-                            | Some r => Some (snd r)
+        (* for tile in tile_dict[(row[..], ..)]: KeyError when the key is not in the dictionary *)
+        if forallb (fun row => existsb (zs_eqb (sel (bp_rkey p) (fst row))) keys) rows then
+          (* every row writes its data into all tile objects of its key; the last row of a key stays *)
+          let res := map (fun c =>
+                            match find_last (fun row => zs_eqb (sel (bp_rkey p) (fst row)) (sel (bp_dkey p) c)) rows with
+                            | Some row => Some (snd row)
                             | None => None
-                            end) (enum_from O cs) in
-          Some (Nat.eqb (List.length rows) (dict_size dict), res)
+                            end) cs in
+          Some (Nat.eqb (List.length rows) (List.length fst_tiles), res)
         else None
       end
     end
